@@ -2,7 +2,7 @@
    parent), frames and locals destroyed exactly once, stop reaches the awaited leaf.
    Model: Calc/TaskDefs.v (TCalc); proofs: Calc/TaskProofs.v.  Partial below the model: frame
    allocation, symmetric transfer, compiler generated coroutine code. *)
-From Coq Require Import ZArith List Bool.
+From Coq Require Import ZArith List Bool Arith.
 From V Require Import Calc.TaskDefs Calc.TaskProofs.
 Import ListNotations.
 Import TCalc.
@@ -23,6 +23,48 @@ Theorem C10_all_traces_accepted : forall (body : coexpr) (prestopped : bool) (sc
 Proof. exact exec_monitored. Qed.
 Print Assumptions C10_all_traces_accepted.
 
+(* ---- results: co_await maps value / error / done; a task completes with its co_return value, its escaped
+   exception, or done; round trips change nothing ------------------------------------------------------------- *)
+
+(* ADEQUACY: for every body, every script (leaf completions in any order, duplicates, a stop request anywhere),
+   the outcome the root receiver gets is [eval rho body []], the obvious recursive reading of the body, for every
+   oracle rho agreeing with the leaf completions that happened in the run. *)
+Theorem C10_task_result : forall (rho : nat -> outcome) (body : coexpr) (prestopped : bool) (script : list sev),
+  let tr := r_tr (exec body prestopped script) in
+  (forall id o, In (TLeafDone id o) tr -> rho id = o) ->
+  forall o, In (TRoot o) tr -> o = eval rho body [].
+Proof. exact adequacy. Qed.
+Print Assumptions C10_task_result.
+
+(* ... where co_await returns the value, rethrows the error at that point, ends the coroutine on done *)
+Theorem C10_await_maps_result : forall rho s k env,
+  eval rho (CAwait s k) env =
+  match aw_eval rho s env with
+  | OVal v => eval rho k (v :: env)
+  | OErr x => eval rho (CThrow x) env
+  | ODone => ODone
+  end.
+Proof. exact eval_await. Qed.
+Print Assumptions C10_await_maps_result.
+
+(* ... a task awaited as a sender gives its body's result: co_return value, escaped exception *)
+Theorem C10_task_as_sender : forall rho b env a x,
+  aw_eval rho (ATask b) env = eval rho b env /\
+  eval rho (CRet a) env = OVal (arg_val a env) /\
+  eval rho (CThrow x) env = OErr x.
+Proof. exact eval_task. Qed.
+Print Assumptions C10_task_as_sender.
+
+(* ... and awaitable -> as_sender -> connect_awaitable -> await_transform, or sender -> task -> sender, change
+   nothing *)
+Theorem C10_roundtrip : forall rho s env a x,
+  aw_eval rho (AAwJust a) env = aw_eval rho (AJust a) env /\
+  aw_eval rho (AAwErr x) env = aw_eval rho (AErr x) env /\
+  aw_eval rho (ATask (CAwait s (CRet (AVar 0 0)))) env = aw_eval rho s env.
+Proof. exact eval_roundtrip. Qed.
+Print Assumptions C10_roundtrip.
+
+(* the same facts as equations of the operational machine, in every context *)
 Theorem C10_await_maps_value : forall n a k env scope trys cls below st nx,
   run_body n (CAwait (AJust a) k) env scope trys cls below st nx
   = run_body n k (arg_val a env :: env) scope trys cls below st nx /\
@@ -59,6 +101,69 @@ Theorem C10_async_done_unwinds : forall stack st nx,
   end.
 Proof. exact resume_done_unwinds. Qed.
 Print Assumptions C10_async_done_unwinds.
+
+(* ---- cleanup actions, locals, frames, stop: consequences of acceptance by the monitor, stated on the trace ----
+   regs/runs/ends n tr: the cleanup actions registered / started / finished in frame n, in trace order;
+   ctors/dtors_of n tr: locals constructed / destroyed in frame n; created/destroyed n tr: number of TFrame n /
+   TFrameDestroyed n events; noterm: no cleanup action was completed with error/done by the script (that is
+   std::terminate by design). *)
+Theorem C10_cleanups_lifo_once_before_parent : forall body ps script,
+  let tr := r_tr (exec body ps script) in
+  noterm tr ->
+  ((exists o, In (TRoot o) tr) -> forall n, runs n tr = rev (regs n tr) /\ ends n tr = runs n tr) /\
+  (forall tr1 o tr2, tr = tr1 ++ TRoot o :: tr2 -> forall n, runs n tr1 = rev (regs n tr1) /\ ends n tr1 = runs n tr1) /\
+  (forall tr1 n tr2, tr = tr1 ++ TFrameDestroyed n :: tr2 -> runs n tr1 = rev (regs n tr1) /\ ends n tr1 = runs n tr1) /\
+  (forall tr1 e tr2 n, tr = tr1 ++ e :: tr2 -> ftag e = Some n -> is_frame_ev e = false ->
+     forall k, (n < k)%nat -> runs k tr1 = rev (regs k tr1) /\ ends k tr1 = runs k tr1).
+Proof. exact cleanups_lifo_once_before_parent. Qed.
+Print Assumptions C10_cleanups_lifo_once_before_parent.
+
+Theorem C10_locals_destroyed_once : forall body ps script,
+  let tr := r_tr (exec body ps script) in
+  noterm tr ->
+  ((exists o, In (TRoot o) tr) -> forall n i, occ i (dtors_of n tr) = occ i (ctors n tr)) /\
+  (forall tr1 n tr2, tr = tr1 ++ TFrameDestroyed n :: tr2 -> forall i, occ i (dtors_of n tr1) = occ i (ctors n tr1)).
+Proof. exact locals_destroyed_once. Qed.
+Print Assumptions C10_locals_destroyed_once.
+
+Theorem C10_frames_destroyed_once : forall body ps script,
+  let tr := r_tr (exec body ps script) in
+  noterm tr ->
+  (forall n, (destroyed n tr <= created n tr)%nat /\ (created n tr <= 1)%nat) /\
+  ((exists o, In (TRoot o) tr) -> forall n, destroyed n tr = created n tr).
+Proof. exact frames_destroyed_once. Qed.
+Print Assumptions C10_frames_destroyed_once.
+
+Theorem C10_stop_reaches_current_await : forall body ps script id kd seen stack,
+  let rs := fold_left run_ev script (run_start body ps) in
+  r_stopped rs = true -> r_cfg rs = GSusp (SLeaf id kd seen) stack ->
+  (kd = LPlain /\ seen = true) \/ kd = LAw.
+Proof. exact stop_reaches_current_await. Qed.
+Print Assumptions C10_stop_reaches_current_await.
+
+Theorem C10_stop_reaches_leaves : forall body ps script,
+  let tr := r_tr (exec body ps script) in
+  noterm tr ->
+  (forall tr1 id st sp tr2, tr = tr1 ++ TLeafStart id st sp :: tr2 -> st = sp && existsb is_stop tr1) /\
+  (forall tr1 id tr2 e tr3, tr = tr1 ++ TLeafStart id false true :: tr2 ++ TStopReq :: e :: tr3 ->
+     Forall (fun x => x = TSkip) tr2 -> e = TLeafStopSeen id).
+Proof. exact stop_reaches_leaves. Qed.
+Print Assumptions C10_stop_reaches_leaves.
+
+Theorem C10_root_at_most_once : forall body ps script, (roots (r_tr (exec body ps script)) <= 1)%nat.
+Proof. exact root_at_most_once. Qed.
+Print Assumptions C10_root_at_most_once.
+
+(* the same consequences hold for ANY trace the monitor accepts - in particular for every implementation trace on
+   which the K2 tie reports the extracted monitor's verdict "ok" *)
+Theorem C10_accepted_lifecycles : forall tr,
+  monitor tr = true -> (exists o, In (TRoot o) tr) -> noterm tr ->
+  forall n,
+    runs n tr = rev (regs n tr) /\ ends n tr = runs n tr /\
+    destroyed n tr = created n tr /\ (created n tr <= 1)%nat /\
+    (forall i, occ i (dtors_of n tr) = occ i (ctors n tr)).
+Proof. exact accepted_lifecycles. Qed.
+Print Assumptions C10_accepted_lifecycles.
 
 (* ---- concrete non-trivial runs ---------------------------------------------------------------------- *)
 Definition c1 := {| c_id := 1; c_leaf := None |}.
@@ -109,3 +214,17 @@ Proof. vm_compute. reflexivity. Qed.
 Example ex_monitor_rejects_parent_first :
   monitor [TFrame 0; TFrame 1; TCleanupReg 1 1; TLocalCtor 0 9] = false.
 Proof. vm_compute. reflexivity. Qed.
+
+(* the hypotheses of the corollaries are met by the runs above *)
+Example ex_hyps_value :
+  let tr := r_tr (exec outer false [EvLeaf 0 (OVal 3); EvLeaf 1 (OVal 4); EvLeaf 5 (OVal 0)]) in
+  existsb (fun e => match e with TTerminate => true | _ => false end) tr = false /\
+  roots tr = 1%nat /\ regs 0 tr = [1; 2]%nat /\ runs 0 tr = [2; 1]%nat /\ ends 0 tr = [2; 1]%nat /\
+  created 1 tr = 1%nat /\ destroyed 1 tr = 1%nat /\ ctors 0 tr = [1; 2]%nat /\ dtors_of 0 tr = [2; 1]%nat.
+Proof. vm_compute. repeat split; reflexivity. Qed.
+
+(* adequacy instantiated: leaf 0 -> 3, leaf 1 -> done (because of the stop request), cleanup leaf 5 -> 0 *)
+Example ex_eval :
+  eval (fun id => match id with 0%nat => OVal 3 | 1%nat => ODone | _ => OVal 0 end) outer [] = ODone /\
+  eval (fun id => match id with 0%nat => OVal 3 | 1%nat => OVal 4 | _ => OVal 0 end) outer [] = OVal 4.
+Proof. vm_compute. split; reflexivity. Qed.
